@@ -6,6 +6,7 @@ import (
 	"go/token"
 	"go/types"
 	"math"
+	"regexp"
 	"strings"
 	"unicode"
 
@@ -360,68 +361,81 @@ func ruleC06R1(r *Run) {
 	if nameFn == nil || patFn == nil {
 		return
 	}
-	type parts struct {
-		format string
-		arg0   string
-		dir    string
-		final  string
-		pos    token.Pos
+	// Both results are unfolded into string shapes (literals, sanitised test name, other values) and compared:
+	// the glob must be the name with one run of non-separator parts replaced by a single '*'.
+	render := func(fn *ssa.Function, idx int) (string, token.Pos, bool) {
+		rets := returnsOf(fn)
+		if len(rets) != 1 || len(fn.Params) != 1 {
+			return "", fn.Pos(), false
+		}
+		san := "kindaSafeFilename($" + fn.Params[0].Name() + ")"
+		raw := "$" + fn.Params[0].Name()
+		var b strings.Builder
+		for _, q := range p.strShape(p.res(rets[0], idx)) {
+			switch {
+			case q.Kind == "lit":
+				b.WriteString(q.Lit)
+			case q.Expr == san:
+				b.WriteString("\x01")
+			case strings.Contains(q.Expr, raw):
+				b.WriteString("\x04" + q.Expr + "\x03") // derived from the raw test name
+			case q.Kind == "int":
+				b.WriteString("\x02int\x03")
+			default:
+				b.WriteString("\x02" + q.Expr + "\x03")
+			}
+		}
+		return b.String(), rets[0].Pos(), true
 	}
-	get := func(fn *ssa.Function, resIdx int) (parts, bool) {
-		var ps parts
-		sp := p.callsTo(fn, "fmt.Sprintf")
-		if len(sp) != 1 {
-			return ps, false
-		}
-		ps.pos = sp[0].Instr.Pos()
-		ps.format, _ = constString(p.resolve(sp[0].Arg(0)))
-		args := p.variadicArgs(sp[0].Arg(1))
-		if len(args) > 0 && args[0] != nil {
-			ps.arg0 = p.expr(args[0])
-		}
-		joins := p.callsTo(fn, "path/filepath.Join")
-		for _, j := range joins {
-			as := p.variadicArgs(j.Arg(0))
-			var es []string
-			for _, a := range as {
-				es = append(es, p.expr(a))
-			}
-			s := strings.Join(es, " / ")
-			if len(as) == 3 {
-				ps.dir = s
-			}
-		}
-		for _, ret := range returnsOf(fn) {
-			rv := p.resolve(p.res(ret, resIdx))
-			if c, ok := rv.(*ssa.Call); ok && p.calleeKey(c.Common()) == "path/filepath.Join" {
-				as := p.variadicArgs(c.Common().Args[0])
-				if len(as) == 2 {
-					d, ok1 := p.resolve(as[0]).(*ssa.Call)
-					f, ok2 := p.resolve(as[1]).(*ssa.Call)
-					if ok1 && ok2 && p.calleeKey(d.Common()) == "path/filepath.Join" && f == sp[0].Value() {
-						ps.final = "Join(dir, file)"
-					}
+	show := func(s string) string {
+		return strings.NewReplacer("\x01", "<safe(testName)>", "\x02", "<", "\x03", ">", "\x04", "<RAW:").Replace(s)
+	}
+	n, npos, ok1 := render(nameFn, 1)
+	q, _, ok2 := render(patFn, 0)
+	if !ok1 || !ok2 {
+		r.Undecided("failFileName/failFilePattern#shape", nameFn.Pos(), "expected failFileName and failFilePattern to have one parameter and one return")
+		return
+	}
+	split := func(s string) (string, string) {
+		// the last separator outside an opaque part
+		depth, cut := 0, -1
+		for i := 0; i < len(s); i++ {
+			switch s[i] {
+			case 2, 4:
+				depth++
+			case 3:
+				depth--
+			case '/':
+				if depth == 0 {
+					cut = i
 				}
 			}
 		}
-		return ps, true
+		if cut < 0 {
+			return "", s
+		}
+		return s[:cut], s[cut+1:]
 	}
-	n, ok1 := get(nameFn, 1)
-	q, ok2 := get(patFn, 0)
-	if !ok1 || !ok2 {
-		r.Undecided("failFileName/failFilePattern#shape", nameFn.Pos(), "expected exactly one fmt.Sprintf in failFileName and failFilePattern")
-		return
-	}
-	r.Check("failFile#sanitiser", n.pos, n.arg0 == "kindaSafeFilename($testName)" && q.arg0 == n.arg0, "file name and glob both start with kindaSafeFilename(testName)", "file name starts with "+n.arg0+" but the discovery glob with "+q.arg0+": for some test names the saved file is never found")
-	r.Check("failFile#directory", n.pos, n.dir != "" && n.dir == q.dir && strings.HasSuffix(n.dir, "kindaSafeFilename($testName)"), "both use the directory "+n.dir, "directory of the file ("+n.dir+") and of the glob ("+q.dir+") differ")
-	r.Check("failFile#joined", n.pos, n.final != "" && q.final != "", "both return Join(directory, file part)", "file name or pattern is not Join(directory, file part)")
-	// pattern = name format with the middle replaced by *
+	ndir, nfile := split(n)
+	qdir, qfile := split(q)
+	r.Check("failFile#sanitiser", npos, !strings.Contains(n, "\x04") && !strings.Contains(q, "\x04") && strings.Contains(nfile, "\x01") == strings.Contains(qfile, "\x01"),
+		"the test name reaches the file name and the glob only through kindaSafeFilename: "+show(n)+" / "+show(q),
+		"the test name reaches the file name or the discovery glob without (or with a different) sanitiser: name "+show(n)+", glob "+show(q)+": for some test names the saved file is never found")
+	r.Check("failFile#directory", npos, ndir != "" && ndir == qdir && !strings.ContainsAny(ndir, "\x02*?[\\") && strings.Contains(ndir, "\x01"),
+		"both use the directory "+show(ndir), "directory of the file ("+show(ndir)+") and of the glob ("+show(qdir)+") differ, or contain glob metacharacters or parts that vary between runs")
+	r.Check("failFile#joined", npos, ndir != "" && qdir != "" && nfile != "" && qfile != "", "both are directory/file", "file name or pattern is not directory/file")
 	okFmt := false
-	if strings.HasPrefix(n.format, "%s-") && strings.HasSuffix(n.format, ".fail") && q.format == "%s-*.fail" {
-		mid := strings.TrimSuffix(strings.TrimPrefix(n.format, "%s-"), ".fail")
-		okFmt = !strings.ContainsAny(mid, "/\\") && mid != ""
+	nfile, qfile = opaqueRe.ReplaceAllString(nfile, "\x02\x03"), opaqueRe.ReplaceAllString(qfile, "\x02\x03")
+	if strings.Count(qfile, "*") == 1 && !strings.ContainsAny(qfile, "?[\\\x02") {
+		i := strings.Index(qfile, "*")
+		pre, suf := qfile[:i], qfile[i+1:]
+		if strings.HasPrefix(nfile, pre) && strings.HasSuffix(nfile, suf) && len(nfile) >= len(pre)+len(suf) {
+			mid := nfile[len(pre) : len(nfile)-len(suf)]
+			// the part matched by '*' must not contain a separator: literals without one, integers, values not derived from the name
+			okFmt = !strings.ContainsAny(mid, "/\\") && pre != ""
+		}
 	}
-	r.Check("failFile#formats", n.pos, okFmt, fmt.Sprintf("name format %q is matched by pattern format %q", n.format, q.format), fmt.Sprintf("name format %q is not matched by pattern format %q", n.format, q.format))
+	r.Check("failFile#formats", npos, okFmt, "file part "+show(nfile)+" is matched by glob "+show(qfile), "file part "+show(nfile)+" is not matched by glob "+show(qfile))
 	// doCheck globs with tb.Name(), checkTB saves with tb.Name()
 	if dc := r.MustFn("doCheck"); dc != nil {
 		for _, cs := range p.callsTo(dc, "failFilePattern") {
@@ -434,6 +448,8 @@ func ruleC06R1(r *Run) {
 		}
 	}
 }
+
+var opaqueRe = regexp.MustCompile("[\x02\x04][^\x03]*\x03")
 
 func ruleC06R2(r *Run) {
 	p := r.P
@@ -453,21 +469,37 @@ func ruleC06R2(r *Run) {
 			r.Fail("kindaSafeFilename#write-const", cs.Instr.Pos(), "writes a constant outside the safe alphabet: "+p.expr(c))
 			continue
 		}
-		ex := p.expr(arg)
-		sets := p.pathConds(fn, cs.Instr.Block(), func(rl rel) bool { return strings.Contains(rl.X, ex) })
-		okAll := len(sets) > 0
-		for _, set := range sets {
-			ok := false
-			for _, lit := range set {
-				switch lit {
-				case "unicode.IsLetter(" + ex + ") == true", "unicode.IsDigit(" + ex + ") == true", ex + " == 45", ex + " == 95":
-					ok = true
+		// the written value may be chosen by a phi (r = '_' on the unsafe branch): every alternative must be safe
+		okAll := true
+		nAlt := 0
+		for _, a := range p.alternatives(arg, 0) {
+			nAlt++
+			av := p.resolve(a.Val)
+			if c, ok := av.(*ssa.Const); ok {
+				if v, ok := constInt(c); !ok || !safeAlphabetRune(rune(v)) {
+					okAll = false
+				}
+				continue
+			}
+			ex := p.expr(av)
+			var lits []string
+			for _, f := range a.Facts {
+				lits = append(lits, f.String())
+			}
+			sets := p.pathConds(fn, cs.Instr.Block(), func(rl rel) bool { return strings.Contains(rl.X, ex) })
+			if len(sets) == 0 {
+				sets = [][]string{{}}
+			}
+			for _, set := range sets {
+				if !p.safeRuneLits(append(append([]string{}, lits...), set...), ex, 0) {
+					okAll = false
 				}
 			}
-			if !ok {
-				okAll = false
-			}
 		}
+		if nAlt == 0 {
+			okAll = false
+		}
+		n += nAlt - 1 // every alternative value of the written rune is one write
 		r.Check("kindaSafeFilename#write-rune", cs.Instr.Pos(), okAll, "the rune is written only if it is a letter, a digit, '-' or '_'", "kindaSafeFilename writes a rune that is not known to be a letter, digit, '-' or '_': glob metacharacters, path separators or dots can reach file names and patterns")
 	}
 	r.Floor("writes in kindaSafeFilename", n, 2)
@@ -527,21 +559,53 @@ func ruleC06R3(r *Run) {
 		}
 	}
 	r.Check("saveFailFile#split-output", save.Pos(), okSplit, "captured output is split on newlines: every output line becomes its own comment line", "captured output is not split on \\n before being written as comments: an output line can be read back as data")
-	// header
-	hdrSep, wordFmt, joinSep := "", "", ""
-	for _, cs := range p.callsTo(save, "fmt.Sprintf") {
-		f, _ := constString(p.resolve(cs.Arg(0)))
-		args := p.variadicArgs(cs.Arg(1))
-		switch len(args) {
-		case 2:
-			if strings.Count(f, "%v") == 2 {
-				hdrSep = strings.TrimSuffix(strings.TrimPrefix(f, "%v"), "%v")
-				r.Check("saveFailFile#header", cs.Instr.Pos(), p.expr(args[0]) == "$version" && p.expr(args[1]) == "$seed", "header is version<sep>seed", "header fields are "+p.expr(args[0])+", "+p.expr(args[1]))
+	// header and words: the strings stored into []string cells of the writer (composite literal, append, indexed store),
+	// unfolded into shapes
+	hdrSep, joinSep := "", ""
+	seedBase, wordBase, wordPrefix := 0, 0, ""
+	nHdr, nWord := 0, 0
+	for _, b := range p.body(save) {
+		for _, in := range b.Instrs {
+			st, ok := in.(*ssa.Store)
+			if !ok || !isStringTyped(st.Val) {
+				continue
 			}
-		case 1:
-			wordFmt = f
-			r.Check("saveFailFile#word", cs.Instr.Pos(), strings.HasPrefix(p.expr(args[0]), "$buf["), "words of the buffer are written in order", "word format is applied to "+p.expr(args[0]))
+			if _, ok := st.Addr.(*ssa.IndexAddr); !ok {
+				continue
+			}
+			sh := p.strShape(st.Val)
+			hasVersion, hasWord := false, false
+			for _, q := range sh {
+				if q.Expr == "$version" {
+					hasVersion = true
+				}
+				if q.Kind == "int" && (strings.HasPrefix(q.Expr, "$buf[") || strings.HasPrefix(q.Expr, "conv<uint64>($buf[")) {
+					hasWord = true
+				}
+			}
+			switch {
+			case hasVersion:
+				nHdr++
+				ok := len(sh) == 3 && sh[0].Expr == "$version" && sh[0].Kind != "lit" && sh[1].Kind == "lit" && sh[2].Kind == "int" && sh[2].Expr == "$seed"
+				if ok {
+					hdrSep, seedBase = sh[1].Lit, sh[2].Base
+				}
+				r.Check("saveFailFile#header", st.Pos(), ok, "header is version<sep>seed", "header is "+shapeString(sh)+", expected version<sep>seed")
+			case hasWord:
+				nWord++
+				ok := (len(sh) == 1 && sh[0].Kind == "int") || (len(sh) == 2 && sh[0].Kind == "lit" && sh[1].Kind == "int")
+				if ok {
+					wordBase = sh[len(sh)-1].Base
+					if len(sh) == 2 {
+						wordPrefix = sh[0].Lit
+					}
+				}
+				r.Check("saveFailFile#word", st.Pos(), ok, "each word of the buffer is written as "+shapeString(sh), "a data line is "+shapeString(sh)+", expected [prefix]<word>")
+			}
 		}
+	}
+	if nHdr != 1 || nWord != 1 {
+		r.Undecided("saveFailFile#data-lines", save.Pos(), fmt.Sprintf("expected one header string and one word string stored into the line slice, found %d and %d", nHdr, nWord))
 	}
 	for _, cs := range p.callsTo(save, "strings.Join") {
 		joinSep, _ = constString(p.resolve(cs.Arg(1)))
@@ -553,22 +617,23 @@ func ruleC06R3(r *Run) {
 			okHdr = true
 		}
 	}
-	r.Check("format#header-separator", load.Pos(), okHdr && hdrSep == "#", fmt.Sprintf("header written and split with %q", hdrSep), fmt.Sprintf("header separator written %q is not the one the reader splits on", hdrSep))
+	r.Check("format#header-separator", load.Pos(), okHdr && hdrSep != "" && !strings.ContainsAny(hdrSep, "\n\r") && strings.TrimSpace(hdrSep) == hdrSep, fmt.Sprintf("header written and split with %q", hdrSep), fmt.Sprintf("header separator written %q is not the one the reader splits on", hdrSep))
 	// bases
 	for _, cs := range p.callsTo(load, "strconv.ParseUint") {
 		base, _ := constInt(p.resolve(cs.Arg(1)))
 		bits, _ := constInt(p.resolve(cs.Arg(2)))
 		src := p.expr(cs.Arg(0))
 		if strings.Contains(src, "strings.Split(") {
-			r.Check("format#seed-base", cs.Instr.Pos(), base == 10 && bits == 64, "seed written with %v (decimal) and parsed base 10", fmt.Sprintf("seed is parsed with base %d / %d bits", base, bits))
+			ok := bits == 64 && ((seedBase == 10 && (base == 10 || base == 0)) || (seedBase == 16 && base == 16))
+			r.Check("format#seed-base", cs.Instr.Pos(), ok, fmt.Sprintf("seed written in base %d and parsed with base %d", seedBase, base), fmt.Sprintf("seed is written in base %d but parsed with base %d / %d bits", seedBase, base, bits))
 		} else {
-			ok := bits == 64 && ((wordFmt == "0x%x" && (base == 0)) || (wordFmt == "%d" && (base == 10 || base == 0)) || (wordFmt == "%x" && base == 16))
-			r.Check("format#word-base", cs.Instr.Pos(), ok, fmt.Sprintf("words written with %q and parsed with base %d", wordFmt, base), fmt.Sprintf("words are written with %q but parsed with base %d (%d bits): the persisted bitstream is not read back as written", wordFmt, base, bits))
+			ok := bits == 64 && ((wordPrefix == "0x" && wordBase == 16 && base == 0) || (wordPrefix == "" && wordBase == 10 && (base == 10 || base == 0)) || (wordPrefix == "" && wordBase == 16 && base == 16))
+			r.Check("format#word-base", cs.Instr.Pos(), ok, fmt.Sprintf("words written with prefix %q in base %d and parsed with base %d", wordPrefix, wordBase, base), fmt.Sprintf("words are written with prefix %q in base %d but parsed with base %d (%d bits): the persisted bitstream is not read back as written", wordPrefix, wordBase, base, bits))
 		}
 	}
 	r.Check("format#line-separator", save.Pos(), joinSep == "\n", "data lines are joined with \\n (the reader scans lines)", fmt.Sprintf("data lines are joined with %q", joinSep))
 	if v, pos, ok := p.constStringNamed("rapidVersion"); ok {
-		r.Check("rapidVersion", pos, !strings.ContainsAny(v, "#\n\r ") && v != "", fmt.Sprintf("version %q contains no separator characters", v), fmt.Sprintf("rapidVersion %q contains '#', whitespace or a newline: the header cannot be split back", v))
+		r.Check("rapidVersion", pos, !strings.ContainsAny(v, "#\n\r ") && v != "" && (hdrSep == "" || !strings.Contains(v, hdrSep)), fmt.Sprintf("version %q contains no separator characters", v), fmt.Sprintf("rapidVersion %q contains '#', whitespace or a newline: the header cannot be split back", v))
 	} else {
 		r.Undecided("anchor:rapidVersion", token.NoPos, "anchor unresolved: constant rapidVersion")
 	}
@@ -1155,4 +1220,68 @@ func (p *Program) errorTest(ev ssa.Value, d int) (*ssa.If, bool) {
 		}
 	}
 	return nil, false
+}
+
+func shapeString(sh []strPart) string {
+	var b strings.Builder
+	for _, q := range sh {
+		switch q.Kind {
+		case "lit":
+			fmt.Fprintf(&b, "%q", q.Lit)
+		case "int":
+			fmt.Fprintf(&b, "<%s base %d>", q.Expr, q.Base)
+		default:
+			fmt.Fprintf(&b, "<%s>", q.Expr)
+		}
+	}
+	return b.String()
+}
+
+// safeRuneLits reports whether a conjunction of path literals implies that ex is a letter, a digit, '-' or '_';
+// a literal pred(ex) == true of a package predicate is unfolded into the path conditions of its true returns.
+func (p *Program) safeRuneLits(lits []string, ex string, depth int) bool {
+	for _, lit := range lits {
+		switch lit {
+		case "unicode.IsLetter(" + ex + ") == true", "unicode.IsDigit(" + ex + ") == true", ex + " == 45", ex + " == 95":
+			return true
+		}
+		if depth < 2 && strings.HasSuffix(lit, "("+ex+") == true") {
+			pred := p.Fn(strings.TrimSuffix(lit, "("+ex+") == true"))
+			if pred == nil || len(pred.Params) != 1 || pred.Signature.Results().Len() != 1 {
+				continue
+			}
+			all, n := true, 0
+			for _, ret := range returnsOf(pred) {
+				for _, a := range p.alternatives(p.res(ret, 0), 0) {
+					av := p.resolve(a.Val)
+					var extra []string
+					if b, ok := constBool(av); ok {
+						if !b {
+							continue
+						}
+					} else {
+						extra = append(extra, p.relOf(guard{Cond: av, Pol: true}).String())
+					}
+					for _, f := range a.Facts {
+						extra = append(extra, f.String())
+					}
+					sets := p.pathConds(pred, ret.Block(), nil)
+					if len(sets) == 0 {
+						sets = [][]string{{}}
+					}
+					for _, set := range sets {
+						n++
+						conj := append(append([]string{}, extra...), set...)
+						if !p.safeRuneLits(conj, ex, depth+1) && !p.safeRuneLits(conj, "$"+pred.Params[0].Name(), depth+1) {
+							all = false
+						}
+					}
+				}
+			}
+			if all && n > 0 {
+				return true
+			}
+		}
+	}
+	return false
 }
